@@ -18,8 +18,9 @@ import (
 	"github.com/sourcegraph/zoekt/internal/verifkit/kit"
 )
 
-// pollCtx is a context whose Done channel closes at the k-th poll, so the
-// harness decides at which point of a search the cancellation lands.
+// pollCtx is a context that becomes cancelled at its k-th observation (a call
+// of Done or Err), so the harness decides at which point of a search the
+// cancellation lands.
 type pollCtx struct {
 	context.Context
 	mu    sync.Mutex
@@ -44,9 +45,16 @@ func (c *pollCtx) Done() <-chan struct{} {
 	return c.ch
 }
 
+// Err is an observation point too: the cancellation may land between two
+// Done polls and be seen first by an Err call.
 func (c *pollCtx) Err() error {
 	c.mu.Lock()
 	defer c.mu.Unlock()
+	c.polls++
+	if !c.done && c.k > 0 && c.polls >= c.k {
+		c.done = true
+		close(c.ch)
+	}
 	if c.done {
 		return context.Canceled
 	}
@@ -250,7 +258,7 @@ func TestVerif_C21(t *testing.T) {
 				l.ShardMax, l.TotalMax, l.RepoMax = kit.Pick(g, lim, "sm"), kit.Pick(g, lim, "tm"), kit.Pick(g, lim, "rm")
 			}
 			if g.Bool(35, "cancel") {
-				l.CancelAtPoll = g.Int(1, 12, "poll")
+				l.CancelAtPoll = g.Int(1, 40, "poll")
 				if g.Bool(50, "wall") {
 					l.WallNanos = int64(kit.Pick(g, []int{1, 1000, 100000, 2000000}, "wallns"))
 				} else {
